@@ -95,14 +95,8 @@ class G:
         st, dt = src["type"], dst["type"]
         allowed = ["buffer", "buffer", "buffer", "fleet", "cconv", "sconv"]
         if not self.opts.get("wide"):
-            if dt == "sink":
-                allowed = ["buffer", "buffer", "fleet"]
             if st in ("splitter", "combiner"):
-                allowed = ["buffer"]
-            elif not src.get("blocking", True) and st != "chaos_producer":
-                allowed = [a for a in allowed if a in ("buffer", "fleet")]
-            if st == "machine" and src.get("wc", 1) > 1:
-                allowed = [a for a in allowed if a in ("buffer", "fleet")]    # KF01: several workers enter a belt together
+                allowed = ["buffer"]              # their blocking FIRST_AVAILABLE branch accepts Buffer out-edges only (explicit ValueError otherwise)
             if st == "chaos_producer":
                 allowed = ["buffer", "buffer", "fleet"]
         t = force or rng.choice(allowed)
